@@ -1,14 +1,22 @@
 package vcclient
 
 import (
+	"context"
+	"encoding/json"
 	"fmt"
+	"math/rand"
 	"os"
-	"os/exec"
+	"sort"
+	"strings"
+	"sync"
+	"time"
 
 	"0chain.net/chaincore/block"
 	"0chain.net/chaincore/chain"
 	"0chain.net/chaincore/httpclientutil"
+	"0chain.net/chaincore/threshold/bls"
 	"0chain.net/chaincore/transaction"
+	"0chain.net/miner"
 	"0chain.net/smartcontract/minersc"
 
 	"github.com/0chain/common/core/statecache"
@@ -20,10 +28,45 @@ import (
 
 func init() { vc.Register("vcclient", Run) }
 
+// step of a scenario (scripted, random, or derived from a TLC behaviour of MC_VCClient)
+type step struct {
+	Op    string   `json:"op"`              // block | poll | include | droptxn | sync | adopt
+	M     string   `json:"m,omitempty"`     // miner
+	View  string   `json:"view,omitempty"`  // poll: which sharders answer the phase poll: cur | lag | none
+	RView string   `json:"rview,omitempty"` // poll: ... and the REST calls of the phase function (default = view)
+	Fate  string   `json:"fate,omitempty"`  // poll: fate of the transaction the phase function sends: ok | late | lost
+	Drop  []string `json:"drop,omitempty"`  // poll: peers whose share request the network loses
+}
+
+type bufEv struct {
+	m          rec.M
+	shape      string
+	nontrivial bool
+}
+
 type drv struct {
 	s    *sim
 	rc   *rec.Recorder
 	base *block.Block
+	r0   int64
+	pl   *polys
+	emu  sync.Mutex
+	buf  []bufEv
+	// per trace
+	mbBlock *block.Block // the block that carries the new magic block
+	run     *runInfo     // the loop run under way
+	late    map[string][]*httpclientutil.Transaction
+	lastSC  string
+	debug   bool
+}
+
+type runInfo struct {
+	m         *simMiner
+	fate      string
+	txkind    string
+	execd     bool
+	confirmed bool
+	nrpc      int
 }
 
 func Run(a vc.Args) {
@@ -31,9 +74,31 @@ func Run(a vc.Args) {
 	defer s.w.Close()
 	rc := rec.New(a.Out)
 	defer rc.Close()
-	d := &drv{s: s, rc: rc}
+	d := &drv{s: s, rc: rc, debug: os.Getenv("VERIF_VCCLIENT_DEBUG") != ""}
 	d.buildBase()
-	d.smoke()
+	id := 0
+	do := func(kind string, steps []step, r *rand.Rand) {
+		id++
+		if a.Only != 0 && a.Only != id {
+			rc.TraceID = id
+			return
+		}
+		rc.TraceID = id - 1
+		d.trace(id, a.Seed, kind, steps)
+	}
+	for i, sc := range scripted() {
+		do(fmt.Sprintf("scripted-%d", i+1), sc, nil)
+	}
+	for _, raw := range vc.Behaviours(a.Behav) {
+		var items []genItem
+		must(json.Unmarshal(raw, &items))
+		do("tlc", fromBehaviour(items), nil)
+	}
+	n := a.N
+	for i := 0; i < n; i++ {
+		r := vc.TraceRand(a.Seed, id+1)
+		do("random", randomScenario(r, a.Steps), r)
+	}
 }
 
 func (d *drv) mustOK(what string, r world.Result) {
@@ -42,110 +107,572 @@ func (d *drv) mustOK(what string, r world.Result) {
 	}
 }
 
+func minerInput(w *world.World, k *world.Key, port int) map[string]interface{} {
+	return map[string]interface{}{
+		"simple_miner": map[string]interface{}{"id": k.ID, "n2n_host": k.Name + ".n2n.verif", "host": k.Name + ".verif",
+			"port": port, "public_key": k.Pub, "short_name": k.Name, "build_tag": "verif"},
+		"stake_pool": map[string]interface{}{"settings": map[string]interface{}{
+			"delegate_wallet": w.Clients[0].ID, "num_delegates": 5, "service_charge": 0.1}},
+	}
+}
+
 // buildBase registers the magic-block miners and sharders with the contract's own transactions.
 func (d *drv) buildBase() {
 	w := d.s.w
 	w.BeginBlock(w.Genesis)
-	reg := func(k *world.Key, fn string, port int) {
-		in := map[string]interface{}{
-			"simple_miner": map[string]interface{}{"id": k.ID, "n2n_host": k.Name + ".n2n.verif", "host": k.Name + ".verif",
-				"port": port, "public_key": k.Pub, "short_name": k.Name, "build_tag": "verif"},
-			"stake_pool": map[string]interface{}{"settings": map[string]interface{}{
-				"delegate_wallet": w.Clients[0].ID, "num_delegates": 5, "service_charge": 0.1}},
-		}
-		d.mustOK(fn+" "+k.Name, w.SC(k, "minersc", fn, in, 0, 0))
-	}
 	for i, k := range w.Miners {
-		reg(k, "add_miner", minerPort+i)
+		d.mustOK("add_miner "+k.Name, w.SC(k, "minersc", "add_miner", minerInput(w, k, minerPort+i), 0, 0))
 	}
 	for i, k := range w.Sharders {
-		reg(k, "add_sharder", shardPort+i)
+		d.mustOK("add_sharder "+k.Name, w.SC(k, "minersc", "add_sharder", minerInput(w, k, shardPort+i), 0, 0))
 	}
+	w.EndBlock()
+	// one more block, so that the contract's phase node exists in the base state (before the first payFees the
+	// REST API answers with a made-up start phase node of the sharder's own round)
+	w.BeginBlock()
+	d.mustOK("payFees", w.SC(w.Miners[0], "minersc", "payFees", map[string]interface{}{"round": w.Cur.Round}, 0, 0))
 	d.base = w.EndBlock()
+	d.r0 = d.base.Round
 }
 
-func (d *drv) smoke() {
+func (d *drv) rel(round int64) int64 {
+	v := round - d.r0
+	if v < -1 {
+		v = -1
+	}
+	return v
+}
+
+func keyNamesOf(ks []*world.Key) []string {
+	out := make([]string, 0, len(ks))
+	for _, k := range ks {
+		out = append(out, k.Name)
+	}
+	sort.Strings(out)
+	return out
+}
+
+func (d *drv) emit(m rec.M, shape string, nontrivial bool) {
+	d.emu.Lock()
+	d.buf = append(d.buf, bufEv{m, shape, nontrivial})
+	d.emu.Unlock()
+	if d.debug {
+		b, _ := json.Marshal(m)
+		fmt.Fprintf(os.Stderr, "%s\n", clip(string(b), 400))
+	}
+}
+
+// trace runs one scenario.  (The DKGProcess loops also poll the sharders on their own every 5 s of wall time;
+// the transport refuses these polls, see apiRT.)
+func (d *drv) trace(id int, seed int64, kind string, steps []step) {
+	d.buf = nil
+	reset := d.runTrace(id, seed, kind, steps)
+	d.rc.Reset(reset.m, reset.fields)
+	for _, e := range d.buf {
+		d.rc.Emit(e.m, e.shape, e.nontrivial)
+	}
+}
+
+type resetInfo struct{ m, fields rec.M }
+
+func (d *drv) runTrace(id int, seed int64, kind string, steps []step) resetInfo {
 	s := d.s
 	w := s.w
+	d.pl = newPolys()
+	d.mbBlock = nil
+	d.run = nil
+	d.late = map[string][]*httpclientutil.Transaction{}
 	s.startMiners()
 	defer s.stopMiners()
 	w.BeginBlock(d.base)
-	s.onShare = func(from, to *simMiner, status int, body string) {
-		fmt.Fprintf(os.Stderr, "  share %s>%s %d %s\n", from.key.Name, to.key.Name, status, clip(body))
+	for _, sh := range s.sh {
+		sh.lfb, sh.down = d.base, false
 	}
-	s.onTxn = func(m *simMiner, t *httpclientutil.Transaction, fate string, res *world.Result) {
-		r := ""
-		if res != nil {
-			r = res.Class + " " + clip(res.Err)
-		}
-		fmt.Fprintf(os.Stderr, "  txn %s %s %s\n", m.key.Name, fate, r)
-	}
-	for r := 0; r < 14; r++ {
-		res := w.SC(w.Miners[0], "minersc", "payFees", map[string]interface{}{"round": w.Cur.Round}, 0, 0)
-		b := w.EndBlock()
-		for _, sh := range s.sh {
-			sh.lfb = b
-		}
-		snap, _ := d.snapshot(b)
-		fmt.Fprintf(os.Stderr, "block %d payfees=%s mb=%v | %v\n", b.Round, res.Class, b.MagicBlock != nil, snap)
-		for _, m := range s.ms {
-			if err := s.finalize(m, b); err != nil {
-				fmt.Fprintf(os.Stderr, "  finalize %s: %v\n", m.key.Name, err)
-			}
-		}
-		w.BeginBlock()
-		for _, m := range s.ms {
-			s.poll(m)
-			if s.debug {
-				restore := s.enter(m)
-				mb := m.c.GetCurrentMagicBlock()
-				for _, n := range mb.Sharders.CopyNodesMap() {
-					fmt.Fprintf(os.Stderr, "    %s sees sharder %s status %d url %s; active=%v cr=%d\n", m.key.Name, w.Name(n.ID), n.GetStatus(), n.GetN2NURLBase(), m.c.IsActiveInChain(), m.c.GetCurrentRound())
-				}
-				restore()
-			}
-			c := m.mc.VerifVCSnapshot()
-			fmt.Fprintf(os.Stderr, "  %s phase=%d dkg=%v sos=%v mpks=%d nvc=%d\n", m.key.Name, c.CurrentPhase, c.DKGSet, s.names(c.SosKeys), len(c.MpkKeys), c.NextViewChange)
-		}
-		if r == 1 {
-			in := map[string]interface{}{"simple_miner": map[string]interface{}{"id": w.Sharders[0].ID, "n2n_host": "s1.n2n.verif",
-				"host": "s1.verif", "port": shardPort, "public_key": w.Sharders[0].Pub, "short_name": "s1", "build_tag": "verif"},
-				"stake_pool": map[string]interface{}{"settings": map[string]interface{}{"delegate_wallet": w.Clients[0].ID, "num_delegates": 5, "service_charge": 0.1}}}
-			fmt.Fprintf(os.Stderr, "  keep: %s\n", w.SC(w.Sharders[0], "minersc", "sharder_keep", in, 0, 0).Class)
-		}
-	}
-	w.EndBlock()
-	if os.Getenv("VERIF_LOG") != "" {
-		exec.Command("cp", "-r", w.Dir+"/log", "/tmp/vcclient-scratch/log").Run()
-	}
+	s.onShare = d.onShare
+	s.onConfirm = d.onConfirm
+	sc, _ := d.scState(w.Cur)
+	clients := []rec.M{}
 	for _, m := range s.ms {
-		rs, ds := m.mc.VerifVCRoundDKGs()
-		fmt.Fprintf(os.Stderr, "%s dkgs at %v", m.key.Name, rs)
-		for _, g := range ds {
-			if g != nil {
-				fmt.Fprintf(os.Stderr, " [mb=%d T=%d N=%d sr=%d]", g.MagicBlockNumber, g.T, g.N, g.StartingRound)
+		restore := s.enter(m)
+		c := d.client(m)
+		c["m"] = m.key.Name
+		clients = append(clients, c)
+		restore()
+	}
+	pr := []int64{phaseRounds["start"], phaseRounds["contribute"], phaseRounds["share"], phaseRounds["publish"], phaseRounds["wait"]}
+	reset := resetInfo{rec.M{"family": "vcclient", "kind": kind, "id": id, "seed": seed, "steps": steps},
+		rec.M{"sc": sc, "clients": clients, "pr": pr, "min_n": 3, "max_n": nMiners, "min_s": 1, "max_s": nSharders,
+			"generator": w.Miners[0].Name, "miners": keyNamesOf(w.Miners), "sharders": keyNamesOf(w.Sharders),
+			"cur_k": w.MagicBlock.K}}
+	for _, st := range steps {
+		d.step(st)
+	}
+	// whoever has not processed the block with the new magic block does so now; then the new keys are used
+	if d.mbBlock != nil {
+		for _, m := range s.ms {
+			if m.lfb != d.mbBlock {
+				d.adopt(m)
 			}
 		}
-		fmt.Fprintln(os.Stderr)
+		d.lookups()
+		d.groupSign()
+	}
+	if w.Cur != nil {
+		w.EndBlock()
+	}
+	return reset
+}
+
+func (d *drv) miner(name string) *simMiner {
+	for _, m := range d.s.ms {
+		if m.key.Name == name {
+			return m
+		}
+	}
+	rec.Fatal("vcclient: unknown miner %q", name)
+	return nil
+}
+
+func (d *drv) step(st step) {
+	if d.debug {
+		t0 := time.Now()
+		defer func() { fmt.Fprintf(os.Stderr, "STEP %s %s took %v\n", st.Op, st.M, time.Since(t0)) }()
+	}
+	switch st.Op {
+	case "block":
+		d.block()
+	case "poll":
+		d.poll(st)
+	case "include":
+		d.includeLate(d.miner(st.M), false)
+	case "droptxn":
+		d.includeLate(d.miner(st.M), true)
+	case "sync":
+		d.s.sh[1].lfb = d.s.sh[0].lfb
+		sc, _ := d.scState(d.s.sh[1].lfb)
+		d.emit(rec.M{"ev": "Sync", "sc": sc}, "sync", false)
+	case "adopt":
+		if d.mbBlock != nil {
+			if m := d.miner(st.M); m.lfb != d.mbBlock {
+				d.adopt(m)
+			}
+		}
+	default:
+		rec.Fatal("vcclient: unknown step %q", st.Op)
 	}
 }
 
-func clip(s string) string {
-	if len(s) > 120 {
-		return s[:120]
+// ---- the ledger
+
+// scTxn executes a transaction of the contract in the current block and emits the Txn38 event (the event the
+// view-change family of the contract emits, plus the stored contents).
+func (d *drv) scTxn(op, by string, size, n int, extra rec.M, exec func() world.Result) world.Result {
+	w := d.s.w
+	restore := d.s.enterLedger()
+	_, pre := d.scState(w.Cur)
+	res := exec()
+	sc, post := d.scState(w.Cur)
+	restore()
+	ev := rec.M{"ev": "Txn38", "op": op, "by": by, "arg": "ok", "round": d.rel(w.Cur.Round), "size": size, "n": n, "valid": true,
+		"target": by, "member": contains(pre.DKGMiners, d.idOf(by)), "result": res.Class, "err": clip(res.Err+res.Panic, 100),
+		"st": sc["st"], "sc": sc, "poly": 0, "sos": []pair{}}
+	for k, v := range extra {
+		ev[k] = v
+	}
+	moved := "same"
+	switch {
+	case post.Phase != pre.Phase || post.PhasePresent != pre.PhasePresent:
+		moved = fmt.Sprintf("phase%d->%d", pre.Phase, post.Phase)
+	case post.Restarts != pre.Restarts:
+		moved = "restart"
+	}
+	scs := fmt.Sprint(sc)
+	changed := scs != d.lastSC
+	d.lastSC = scs
+	shape := fmt.Sprintf("%s/in%d/%s/%s", op, pre.Phase, res.Class, moved)
+	if op != "payfees" {
+		shape = fmt.Sprintf("%s/in%d/%s/changed=%v", op, pre.Phase, res.Class, changed)
+	}
+	d.emit(ev, shape, changed)
+	return res
+}
+
+func contains(xs []string, x string) bool {
+	for _, y := range xs {
+		if y == x {
+			return true
+		}
+	}
+	return false
+}
+
+func (d *drv) idOf(name string) string {
+	if k, ok := d.s.w.ByName[name]; ok {
+		return k.ID
+	}
+	return ""
+}
+
+// block closes the current block: the sharder's sharder_keep in the contribute phase, the generator's payFees;
+// the sharders that keep up get the block, every miner finalizes it (the real ViewChange; the block that carries
+// the new magic block is processed in `adopt` steps).
+func (d *drv) block() {
+	s := d.s
+	w := s.w
+	if d.mbBlock != nil {
+		return // one view change is followed
+	}
+	_, g := d.scState(w.Cur)
+	if g.PhasePresent && g.Phase == 1 && len(g.Keep) == 0 {
+		k := w.Sharders[0]
+		d.scTxn("keep", k.Name, 0, 0, nil, func() world.Result {
+			return w.SC(k, "minersc", "sharder_keep", minerInput(w, k, shardPort), 0, 0)
+		})
+	}
+	gen := w.Miners[0]
+	d.scTxn("payfees", gen.Name, 0, 0, nil, func() world.Result {
+		return w.SC(gen, "minersc", "payFees", map[string]interface{}{"round": w.Cur.Round}, 0, 0)
+	})
+	restore := s.enterLedger()
+	b := w.EndBlock()
+	restore()
+	s.sh[0].lfb = b
+	if b.MagicBlock != nil {
+		d.mbBlock = b
+		d.emit(rec.M{"ev": "NewMB", "round": d.rel(b.Round), "mb": d.mbRec(b.MagicBlock)}, "newmb", true)
+	} else {
+		for _, m := range s.ms {
+			if err := s.finalize(m, b); err != nil {
+				rec.Fatal("vcclient: ViewChange of %s on block %d: %v", m.key.Name, b.Round, err)
+			}
+		}
+	}
+	restore = s.enterLedger()
+	w.BeginBlock()
+	restore()
+}
+
+// ---- the clients
+
+func (d *drv) poll(st step) {
+	s := d.s
+	m := d.miner(st.M)
+	if st.View == "" {
+		st.View = "cur"
+	}
+	if st.RView == "" {
+		st.RView = st.View
+	}
+	if st.Fate == "" {
+		st.Fate = fateOK
+	}
+	d.run = &runInfo{m: m, fate: st.Fate, txkind: "none"}
+	s.mu.Lock()
+	s.fate = st.Fate
+	s.drop = map[string]bool{}
+	for _, j := range st.Drop {
+		s.drop[m.key.Name+">"+j] = true
+	}
+	s.viewPoll, s.viewRun = st.View, st.RView
+	s.mu.Unlock()
+	d.emit(rec.M{"ev": "Poll", "m": m.key.Name, "view": st.View, "rview": st.RView}, "poll/"+st.View+"/"+st.RView, false)
+	delivered := s.poll(m)
+	restore := s.enter(m)
+	c := d.client(m)
+	restore()
+	crashed := false
+	select {
+	case <-m.done:
+		crashed = true
+	default:
+	}
+	ri := d.run
+	d.run = nil
+	fate := "none"
+	if ri.txkind != "none" {
+		fate = ri.fate
+		if (ri.fate == fateOK || ri.fate == fateBlind) && !ri.execd {
+			fate = "rejected"
+		}
+	}
+	shape := fmt.Sprintf("loop/cph%v/%s/%s/rpc%d", c["cph"], ri.txkind, fate, ri.nrpc)
+	d.emit(rec.M{"ev": "LoopEnd", "m": m.key.Name, "delivered": delivered, "txkind": ri.txkind, "fate": fate,
+		"executed": ri.execd, "confirmed": ri.confirmed, "crashed": crashed, "c": c}, shape, delivered)
+}
+
+func (m *simMiner) entriesNow() int {
+	m.lmu.Lock()
+	defer m.lmu.Unlock()
+	return m.entries
+}
+
+// onShare is called by the transport for every DKG share request (in the sender's loop goroutine).
+func (d *drv) onShare(from, to *simMiner, status int, body string, share string) {
+	d.pl.learn(from.key.ID, from.mc.VerifVCSnapshot().DKG)
+	result := "ok"
+	switch {
+	case status == 0:
+		result = "lost"
+	case status != 200:
+		result = "refused"
+	}
+	reason := ""
+	for _, k := range []string{"DKG is not set", "don't have enough mpks", "failed to verify DKG share", "share already exists"} {
+		if strings.Contains(body, k) {
+			reason = k
+		}
+	}
+	// C34: the share the sender derived for the receiver, against the key vector the sender PUBLISHED (the one
+	// the contract stores for it); -1 when the contract stores none
+	pub := d.publishedVec(from.key.ID)
+	validPub := -1
+	if pub != nil {
+		validPub = 0
+		var sk bls.Key
+		if err := sk.SetHexString(share); err == nil {
+			if pks, err := bls.ConvertStringToMpk(pub); err == nil && bls.ValidateShare(pks, sk, bls.ComputeIDdkg(to.key.ID)) {
+				validPub = 1
+			}
+		}
+	}
+	if d.run != nil {
+		d.run.nrpc++
+	}
+	d.emit(rec.M{"ev": "ShareRPC", "m": from.key.Name, "j": to.key.Name, "result": result, "reason": reason,
+		"poly": d.pl.ofShare(from.key.ID, to.key.ID, share), "valid_pub": validPub},
+		"rpc/"+result+"/"+strings.ReplaceAll(reason, " ", "_"), result == "ok")
+}
+
+// publishedVec returns the key vector the contract stores for the miner in the ledger's current block.
+func (d *drv) publishedVec(id string) []string {
+	w := d.s.w
+	restore := d.s.enterLedger()
+	defer restore()
+	sctx := w.Chain.NewStateContext(w.Cur, chain.CreateTxnMPT(w.CurState, statecache.NewEmpty()), &transaction.Transaction{}, nil)
+	mpks := block.NewMpks()
+	if err := sctx.GetTrieNode(minersc.MinersMPKKey, mpks); err != nil {
+		return nil
+	}
+	if k, ok := mpks.Mpks[id]; ok && k != nil {
+		return k.Mpk
+	}
+	return nil
+}
+
+// onConfirm is called (in the loop goroutine) when a miner asks for the confirmation of the transaction it sent.
+func (d *drv) onConfirm(m *simMiner, t *httpclientutil.Transaction, fate string) bool {
+	d.pl.learn(m.key.ID, m.mc.VerifVCSnapshot().DKG)
+	kind := txKind(t)
+	if d.run != nil {
+		d.run.txkind = kind
+	}
+	switch fate {
+	case fateOK, fateBlind:
+		// transactions of one sender are executed in nonce order: the late ones first
+		for len(d.late[m.key.ID]) > 0 {
+			d.includeLate(m, false)
+		}
+		res := d.execClient(m, t)
+		if d.run != nil {
+			d.run.execd = res.Class != "rejected"
+			d.run.confirmed = d.run.execd && fate == fateOK
+		}
+		return res.Class != "rejected" && fate == fateOK
+	case fateLate:
+		d.late[m.key.ID] = append(d.late[m.key.ID], t)
+	}
+	return false
+}
+
+func txKind(t *httpclientutil.Transaction) string {
+	var scd struct {
+		Name string `json:"name"`
+	}
+	_ = json.Unmarshal([]byte(t.TransactionData), &scd)
+	switch scd.Name {
+	case "contributeMpk":
+		return "mpk"
+	case "shareSignsOrShares":
+		return "sos"
+	case "wait":
+		return "wait"
+	}
+	return scd.Name
+}
+
+// execClient executes a transaction a client produced and emits its Txn38 event with the abstract payload.
+func (d *drv) execClient(m *simMiner, t *httpclientutil.Transaction) world.Result {
+	var scd struct {
+		Name  string          `json:"name"`
+		Input json.RawMessage `json:"input"`
+	}
+	must(json.Unmarshal([]byte(t.TransactionData), &scd))
+	kind := txKind(t)
+	extra := rec.M{}
+	size, n := 0, 0
+	switch kind {
+	case "mpk":
+		mpk := &block.MPK{}
+		must(json.Unmarshal(scd.Input, mpk))
+		size = len(mpk.Mpk)
+		extra["poly"] = d.pl.ofVec(m.key.ID, mpk.Mpk)
+	case "sos":
+		sos := block.NewShareOrSigns()
+		must(json.Unmarshal(scd.Input, sos))
+		n = len(sos.ShareOrSigns)
+		x := map[string]int{}
+		for to, e := range sos.ShareOrSigns {
+			x[to] = d.sosEntry(m.key.ID, to, e)
+		}
+		extra["sos"] = d.pairs(x)
+	}
+	return d.scTxn(kind, m.key.Name, size, n, extra, func() world.Result { return d.s.execClientTxn(t) })
+}
+
+// includeLate executes (or drops) the oldest unconfirmed transaction of the miner.
+func (d *drv) includeLate(m *simMiner, drop bool) {
+	q := d.late[m.key.ID]
+	if len(q) == 0 {
+		return
+	}
+	d.late[m.key.ID] = q[1:]
+	if drop {
+		d.emit(rec.M{"ev": "DropTxn", "m": m.key.Name, "kind": txKind(q[0])}, "droptxn/"+txKind(q[0]), false)
+		return
+	}
+	d.execClient(m, q[0])
+}
+
+// adopt makes the miner process the block that carries the new magic block.
+func (d *drv) adopt(m *simMiner) {
+	s := d.s
+	err := s.finalize(m, d.mbBlock)
+	restore := s.enter(m)
+	c := d.client(m)
+	restore()
+	e := ""
+	if err != nil {
+		e = clip(err.Error(), 100)
+	}
+	rd := c["rdkg"].(rec.M)
+	d.emit(rec.M{"ev": "Adopt", "m": m.key.Name, "err": e, "c": c}, fmt.Sprintf("adopt/dkg=%v/err=%v", rd["set"], e != ""), true)
+}
+
+// lookups: which magic block and which DKG each miner uses for rounds around the switch (C40).
+func (d *drv) lookups() {
+	s := d.s
+	sr := d.mbBlock.MagicBlock.StartingRound
+	for _, m := range s.ms {
+		restore := s.enter(m)
+		mbRounds := []int64{}
+		for _, r := range m.c.MagicBlockStorage.GetRounds() {
+			mbRounds = append(mbRounds, d.rel(r)+1) // +1: the genesis magic block (round 0) is 0 in the trace
+		}
+		sort.Slice(mbRounds, func(i, j int) bool { return mbRounds[i] < mbRounds[j] })
+		dkgRounds := []int64{}
+		rs, _ := m.mc.VerifVCRoundDKGs()
+		for _, r := range rs {
+			dkgRounds = append(dkgRounds, d.rel(r)+1)
+		}
+		for _, r := range []int64{sr - 2, sr - 1, sr, sr + 1, sr + chain.ViewChangeOffset - 1, sr + chain.ViewChangeOffset, sr + chain.ViewChangeOffset + 1, sr + 20} {
+			gotMB := d.rel(m.mc.GetMagicBlock(r).StartingRound) + 1
+			gotDKG := int64(-1)
+			if g := m.mc.GetDKG(r); g != nil {
+				gotDKG = d.rel(g.StartingRound) + 1
+			}
+			d.emit(rec.M{"ev": "Lookup", "m": m.key.Name, "r": d.rel(r) + 1, "offset": chain.ViewChangeOffset, "mb_rounds": mbRounds,
+				"got_mb": gotMB, "dkg_rounds": dkgRounds, "got_dkg": gotDKG},
+				fmt.Sprintf("lookup/%+d/mb%v/dkg%v", r-sr, gotMB > 0, gotDKG > 0), false)
+		}
+		restore()
+	}
+}
+
+// groupSign: every miner that installed a DKG for the new magic block signs a message with its key share (the
+// real DKG.Sign, as GetBlsShare does); every such miner verifies every share with ITS group-derived public keys
+// (the real VerifySignature, as verifyVRFShare does); every T-subset recovers the group signature (the real
+// CalBlsGpSign, as ThresholdNumBLSSigReceived does) (C34).
+func (d *drv) groupSign() {
+	s := d.s
+	type signer struct {
+		m   *simMiner
+		g   *bls.DKG
+		sig string
+	}
+	var sg []signer
+	for _, m := range s.ms {
+		rs, ds := m.mc.VerifVCRoundDKGs()
+		for i, g := range ds {
+			if g != nil && rs[i] == d.mbBlock.MagicBlock.StartingRound {
+				sg = append(sg, signer{m, g, ""})
+			}
+		}
+	}
+	msg := fmt.Sprintf("%d0%x", d.mbBlock.Round+chain.ViewChangeOffset+1, 12345)
+	for i := range sg {
+		sg[i].sig = sg[i].g.Sign(msg).GetHexString()
+	}
+	ok := map[string]int{}
+	for _, x := range sg {
+		good := 1
+		for _, v := range sg {
+			var sig bls.Sign
+			if err := sig.SetHexString(x.sig); err != nil || !v.g.VerifySignature(&sig, msg, bls.ComputeIDdkg(x.m.key.ID)) {
+				good = 0
+			}
+		}
+		ok[x.m.key.ID] = good
+	}
+	// recovered group signatures over all T-subsets of the signers whose shares verify everywhere
+	var gs []signer
+	for _, x := range sg {
+		if ok[x.m.key.ID] == 1 {
+			gs = append(gs, x)
+		}
+	}
+	t := d.mbBlock.MagicBlock.T
+	recs := map[string]bool{}
+	subsets := 0
+	if len(gs) >= t && t > 0 {
+		idx := make([]int, t)
+		var rcs func(start, k int)
+		rcs = func(start, k int) {
+			if k == t {
+				var sigs, ids []string
+				for _, i := range idx {
+					sigs = append(sigs, gs[i].sig)
+					ids = append(ids, miner.ComputeBlsID(gs[i].m.key.ID))
+				}
+				g, err := gs[idx[0]].g.CalBlsGpSign(sigs, ids)
+				subsets++
+				if err != nil {
+					recs["error:"+err.Error()] = true
+				} else {
+					recs[g.GetHexString()] = true
+				}
+				return
+			}
+			for i := start; i < len(gs); i++ {
+				idx[k] = i
+				rcs(i+1, k+1)
+			}
+		}
+		rcs(0, 0)
+	}
+	signers := []pair{}
+	for _, x := range sg {
+		signers = append(signers, pair{x.m.key.Name, ok[x.m.key.ID]})
+	}
+	sort.Slice(signers, func(i, j int) bool { return signers[i].A < signers[j].A })
+	d.emit(rec.M{"ev": "GroupSign", "signers": signers, "t": t, "subsets": subsets, "distinct": len(recs)},
+		fmt.Sprintf("groupsign/n%d/sub%d/distinct%d", len(sg), subsets, len(recs)), true)
+}
+
+func clip(s string, n int) string {
+	if len(s) > n {
+		return s[:n]
 	}
 	return s
 }
 
-// snapshot reads the contract's view-change state in block b.
-func (d *drv) snapshot(b *block.Block) (string, *minersc.VerifGovPhase) {
-	w := d.s.w
-	sctx := w.Chain.NewStateContext(b, chain.CreateTxnMPT(b.ClientState, statecache.NewEmpty()), &transaction.Transaction{}, nil)
-	g, err := minersc.VerifGovSnapshot(sctx)
-	if err != nil {
-		rec.Fatal("vcclient: snapshot: %v", err)
-	}
-	n := d.s.names
-	return fmt.Sprintf("phase=%d start=%d restarts=%d dkg=%v T=%d K=%d N=%d mpks=%v gsos=%v keep=%v waited=%v mb=%v@%d vc=%d",
-		g.Phase, g.StartRound, g.Restarts, n(g.DKGMiners), g.DKGT, g.DKGK, g.DKGN, n(g.Mpks), n(g.Gsos), n(g.Keep), n(g.Waited), n(g.MBMiners), g.MBStart, g.ViewChange), g
-}
+var _ = context.Background
